@@ -520,6 +520,10 @@ def errOf (e : String) : Err :=
   else if e = "invalig sigflag: %v" then .badSigflag
   else if e = "invalig n_sigs value: %v" then .badNSigs
   else if e = "invalid locktime: %v" then .badLocktime
+  else if e = "InvalidWitness" then .invalidWitness
+  else if e = "NotEnoughSignaturesErr" then .notEnoughSignatures
+  else if e = "EmptyPubkeysErr" then .emptyPubkeys
+  else if e = "DuplicateSignaturesErr" then .duplicateSignatures
   else .badPublicKey
 
 def tagsOf (t : P2PKTags) : Tags :=
@@ -777,6 +781,285 @@ theorem ParseP2PKTags_eq (env : Env) (tags : List (List String)) :
     rw [← h]
     rcases L with ⟨c, t⟩
     cases c <;> rfl
+
+/-- a loop step of `ParseP2PKTags` that returns, returns an error -/
+def retOk : Ctl (Option P2PKTags × Option String) × P2PKTags → Prop
+  | (.ret r, _) => r.2.isSome = true
+  | _ => True
+
+/-- `ParseP2PKTags` never returns `(nil, nil)`: without tags there is an error -/
+theorem ParseP2PKTags_wf (env : Env) (tags : List (List String)) :
+    (nut11_ParseP2PKTags extPI (extPK env) tags).1 = none → (nut11_ParseP2PKTags extPI (extPK env) tags).2.isSome = true := by
+  unfold nut11_ParseP2PKTags rangeLoop
+  by_cases hlen0 : tags.length > 5
+  · have hlen : (Int.ofNat tags.length > 5) := by simp; omega
+    simp only [hlen, decide_true, if_true]
+    intro _; rfl
+  · have hlen : ¬ (Int.ofNat tags.length > 5) := by simp; omega
+    simp only [hlen, decide_false, Bool.false_eq_true, if_false]
+    generalize hL : rangeLoopFrom _ 0 tags (default : P2PKTags) = L
+    have h : retOk L := by
+      rw [← hL]
+      refine rangeLoopFrom_spec' _ (fun _ _ res => retOk res) ?_ ?_ ?_ ?_ 0 tags default
+      · intro s; trivial
+      · intro i x xs s s' _ r hr; exact hr
+      · intro i x xs s s' _; trivial
+      · intro i x xs s w s' hb
+        show w.2.isSome = true
+        match x with
+        | [] => simp at hb; rw [← hb.1]; rfl
+        | [a] => simp at hb; rw [← hb.1]; rfl
+        | ty :: v :: more =>
+          have hl : ¬ (Int.ofNat (ty :: v :: more).length < 2) := by simp; omega
+          simp only [hl, decide_false, Bool.false_eq_true, if_false] at hb
+          obtain ⟨hok, herr⟩ := keyLoop env ty v more
+          have hkl : ∀ (P : Ctl (Option P2PKTags × Option String) × (List PublicKey × Int) → Prop),
+              (∀ ks j, P (.next, (ks, j))) → (∀ st, P (.ret (none, some "invalid public key: %v"), st)) →
+              P (countLoop (ρ := Option P2PKTags × Option String) 1 (Int.ofNat (ty :: v :: more).length)
+                (List.replicate (Int.ofNat (ty :: v :: more).length - 1).toNat (default : PublicKey), (0 : Int)) (fun i st =>
+                  if (!(extPK env (idx (ty :: v :: more) i)).snd.isNone) = true then
+                    (Ctl.ret (none, (extPK env (idx (ty :: v :: more) i)).snd), st.fst, st.snd)
+                  else (Ctl.next, st.fst.set st.snd.toNat (extPK env (idx (ty :: v :: more) i)).fst, st.snd + 1))) := by
+            intro P h1 h2
+            cases hp : parseKeys env (v :: more) with
+            | ok ks => obtain ⟨j, e⟩ := hok ks hp; rw [e]; exact h1 _ _
+            | err e => obtain ⟨_, st, e'⟩ := herr e hp; rw [e']; exact h2 _
+          split at hb
+          · split at hb
+            · cases hb
+            · cases hb; rfl
+          · split at hb
+            · split at hb
+              · cases hb; rfl
+              · split at hb
+                · cases hb; rfl
+                · cases hb
+            · split at hb
+              · revert hb
+                refine hkl (fun L => (match L with
+                    | (Ctl.ret r__, _) => (Ctl.ret r__, s)
+                    | (_, pubkeys, _) => (Ctl.next, ({ s with Pubkeys := pubkeys } : P2PKTags))) = (Ctl.ret w, s') → w.2.isSome = true) ?_ ?_
+                · intro ks j hb; cases hb
+                · intro st hb; cases hb; rfl
+              · split at hb
+                · split at hb
+                  · cases hb; rfl
+                  · cases hb
+                · split at hb
+                  · revert hb
+                    refine hkl (fun L => (match L with
+                        | (Ctl.ret r__, _) => (Ctl.ret r__, s)
+                        | (_, refundKeys, _) => (Ctl.next, ({ s with Refund := refundKeys } : P2PKTags))) = (Ctl.ret w, s') → w.2.isSome = true) ?_ ?_
+                    · intro ks j hb; cases hb
+                    · intro st hb; cases hb; rfl
+                  · cases hb
+    rcases L with ⟨c, t⟩
+    cases c with
+    | next => simp
+    | brk => simp
+    | ret r => intro _; exact h
+
+/-! ## cashu/nuts/nut11: HasValidSignatures (C12, C13) -/
+
+theorem copySlice_fresh {α : Type} [Inhabited α] (src : List α) :
+    copySlice (List.replicate (Int.toNat (Int.ofNat src.length)) (default : α)) src = src := by
+  unfold copySlice
+  simp
+
+theorem sliceDelete_one {α : Type} (l : List α) (i : Nat) :
+    sliceDelete l (Int.toNat (Int.ofNat i)) (Int.toNat (Int.ofNat i + 1)) = l.eraseIdx i := by
+  unfold sliceDelete
+  have e1 : Int.toNat (Int.ofNat i) = i := by simp
+  have e2 : Int.toNat (Int.ofNat i + 1) = i + 1 := by simp
+  rw [e1, e2, List.eraseIdx_eq_take_drop_succ]
+
+/-- the inner loop: the first key under which the signature verifies is counted and removed -/
+theorem hvsInner (valid : Sig → Key → Msg → Bool) (m : Msg) (sg : Sig) (test : PublicKey → Bool)
+    (body : Nat → PublicKey → Int × List PublicKey → Ctl Bool × (Int × List PublicKey))
+    (hb : ∀ i k v all, body i k (v, all) =
+      if test k = true then (.brk, (v + 1, sliceDelete all (Int.toNat (Int.ofNat i)) (Int.toNat (Int.ofNat i + 1))))
+      else (.next, (v, all)))
+    (ht : ∀ k, test k = valid sg k m) :
+    ∀ (rest : List PublicKey) (i0 : Nat) (v : Int) (all : List PublicKey),
+      rangeLoopFrom body i0 rest (v, all) =
+        match findKey valid m sg rest with
+        | none => (.next, (v, all))
+        | some j => (.next, (v + 1, all.eraseIdx (i0 + j))) := by
+  intro rest
+  induction rest with
+  | nil => intro i0 v all; simp [rangeLoopFrom, findKey]
+  | cons k ks ih =>
+    intro i0 v all
+    by_cases hk : test k = true
+    · have hbody := hb i0 k v all
+      rw [if_pos hk, sliceDelete_one] at hbody
+      rw [rangeLoopFrom_cons_brk hbody]
+      have : valid sg k m = true := by rw [← ht]; exact hk
+      simp [findKey, this]
+    · have hbody := hb i0 k v all
+      rw [if_neg hk] at hbody
+      rw [rangeLoopFrom_cons_next hbody, ih]
+      have : valid sg k m = false := by rw [← ht]; simpa using hk
+      simp only [findKey, this, Bool.false_eq_true, if_false]
+      cases findKey valid m sg ks with
+      | none => rfl
+      | some j => simp [Nat.add_assoc, Nat.add_comm 1 j]
+
+/-- `nut11.HasValidSignatures` is the model's `hasValidSignatures`: `valid (enc s) k m` says that the signature string
+    `s` parses and verifies for the hashed message under key `k` -/
+theorem HasValidSignatures_eq (extP : String → Signature × Option String) (extV : Signature → List UInt8 → PublicKey → Bool)
+    (hash : List UInt8) (sigs : List String) (n : Int) (keys : List PublicKey)
+    (valid : Sig → Key → Msg → Bool) (m : Msg) (enc : String → Sig)
+    (hv : ∀ s k, valid (enc s) k m = ((extP s).2.isNone && extV (extP s).1 hash k)) :
+    nut11_HasValidSignatures extP extV hash sigs n keys = decide (Int.ofNat (hvsCount valid m (sigs.map enc) keys) ≥ n) := by
+  unfold nut11_HasValidSignatures rangeLoop
+  simp only [copySlice_fresh]
+  generalize hL : rangeLoopFrom _ 0 sigs ((0 : Int), keys) = L
+  have h : ∃ ks', L = (.next, ((0 : Int) + Int.ofNat (hvsCount valid m (sigs.map enc) keys), ks')) := by
+    rw [← hL]
+    refine rangeLoopFrom_spec _
+      (fun (xs : List String) (st : Int × List PublicKey) (res : Ctl Bool × (Int × List PublicKey)) =>
+        ∃ ks', res = (.next, (st.1 + Int.ofNat (hvsCount valid m (xs.map enc) st.2), ks')))
+      ?_ ?_ 0 sigs ((0 : Int), keys)
+    · rintro ⟨v, ks⟩; exact ⟨ks, by simp [hvsCount]⟩
+    · rintro i x xs ⟨v, ks⟩
+      rcases hp : extP x with ⟨sg, err⟩
+      cases err with
+      | some e =>
+        -- the signature does not parse: skipped; in the model it verifies under no key
+        have hnone : findKey valid m (enc x) ks = none := by
+          have : ∀ k, valid (enc x) k m = false := by intro k; rw [hv, hp]; rfl
+          induction ks with
+          | nil => rfl
+          | cons k ks ih => simp [findKey, this k, ih]
+        simp only [Option.isNone_some, Bool.not_false, if_true]
+        rintro r ⟨ks', e'⟩
+        exact ⟨ks', by simp [e', hvsCount, hnone]⟩
+      | none =>
+        simp only [Option.isNone_none, Bool.not_true, Bool.false_eq_true, if_false]
+        have hin := hvsInner valid m (enc x) (fun k => extV sg hash k)
+          (fun i_n pubkey st => if extV sg hash pubkey = true then
+              (Ctl.brk, st.fst + 1, sliceDelete st.snd (Int.toNat (Int.ofNat i_n)) (Int.toNat (Int.ofNat i_n + 1)))
+            else (Ctl.next, st.fst, st.snd))
+          (fun i k v all => rfl) (fun k => by rw [hv, hp]; rfl) ks 0 v ks
+        rw [hin]
+        cases hf : findKey valid m (enc x) ks with
+        | none =>
+          simp only
+          rintro r ⟨ks', e'⟩
+          exact ⟨ks', by simp [e', hvsCount, hf]⟩
+        | some j =>
+          simp only [Nat.zero_add]
+          rintro r ⟨ks', e'⟩
+          refine ⟨ks', ?_⟩
+          rw [e']
+          simp only [List.map_cons, hvsCount, hf, removeMatchedKey, if_true]
+          congr 2
+          simp only [Int.ofNat_eq_natCast]
+          omega
+  obtain ⟨ks', e⟩ := h
+  simp [e]
+
+/-! ## cashu/nuts/nut11: VerifyP2PKLockedProof (C12) -/
+
+/-- an `error` result read as the model's outcome -/
+def absErr : Option String → Outcome
+  | none => .ok ()
+  | some e => .err (errOf e)
+
+theorem dupSigs_model : ∀ (l : List Sig), duplicateSignatures l = false ↔ l.Nodup
+  | [] => by simp [duplicateSignatures]
+  | s :: rest => by
+    simp only [duplicateSignatures, Bool.or_eq_false_iff, List.nodup_cons, dupSigs_model rest]
+    simp
+
+theorem nodup_map_inj_iff (enc : String → Sig) (henc : Function.Injective enc) (sigs : List String) :
+    (sigs.map enc).Nodup ↔ sigs.Nodup := by
+  induction sigs with
+  | nil => simp
+  | cons a l ih =>
+    simp only [List.map_cons, List.nodup_cons, List.mem_map]
+    rw [ih]
+    constructor
+    · rintro ⟨h1, h2⟩; exact ⟨fun hm => h1 ⟨a, hm, rfl⟩, h2⟩
+    · rintro ⟨h1, h2⟩; exact ⟨fun ⟨b, hb, e⟩ => h1 (henc e ▸ hb), h2⟩
+
+theorem dupSigs_enc (enc : String → Sig) (henc : Function.Injective enc) (sigs : List String) :
+    nut11_DuplicateSignatures sigs = duplicateSignatures (sigs.map enc) := by
+  have h1 := nut11_DuplicateSignatures_iff sigs
+  have h2 := dupSigs_model (sigs.map enc)
+  have h3 := nodup_map_inj_iff enc henc sigs
+  cases ha : nut11_DuplicateSignatures sigs <;> cases hb : duplicateSignatures (sigs.map enc) <;> simp_all
+
+theorem ofNat_beq_zero (n : Nat) : (Int.ofNat n == 0) = decide (n = 0) := by
+  cases n with
+  | zero => rfl
+  | succ n =>
+    have : ¬ ((n : Int) + 1 = 0) := by omega
+    simp [this]
+
+theorem hvs_cast (c : Nat) (n : Int) (hn : 0 < n) : decide (Int.ofNat c ≥ n) = decide (c ≥ n.toNat) := by
+  have : (Int.ofNat c ≥ n) ↔ (c ≥ n.toNat) := by
+    constructor <;> intro h <;> simp only [Int.ofNat_eq_natCast, ge_iff_le] at * <;> omega
+  simp only [this]
+
+/-- the regenerated `nut11.VerifyP2PKLockedProof` IS the model's `verifyP2PK`: `enc` names the signature strings, the
+    model's `valid (enc s) key msg` says "s parses and verifies for sha256(secret) under key", the witness is whatever
+    `json.Unmarshal` leaves (error ignored, as in the code), the clock is the environment's -/
+theorem VerifyP2PKLockedProof_eq (env : Env) (extU : String → P2PKWitness → P2PKWitness) (sh : String → List UInt8)
+    (extP : String → Signature × Option String) (extV : Signature → List UInt8 → PublicKey → Bool)
+    (enc : String → Sig) (henc : Function.Injective enc) (proof : Gen.Code.Proof) (secret : WellKnownSecret)
+    (mp : Spend.Proof) (k : Kind)
+    (hsig : mp.witness.signatures = (extU proof.Witness default).Signatures.map enc)
+    (hv : ∀ s key, env.valid (enc s) key mp.msg = ((extP s).2.isNone && extV (extP s).1 (sh proof.Secret) key)) :
+    absErr (nut11_VerifyP2PKLockedProof extU extPI (extPK env) env.now sh extP extV proof secret) =
+      verifyP2PK env mp { kind := k, data := secret.Data.Data, tags := secret.Data.Tags } := by
+  unfold nut11_VerifyP2PKLockedProof verifyP2PK
+  have hpe := ParseP2PKTags_eq env secret.Data.Tags
+  have hwf := ParseP2PKTags_wf env secret.Data.Tags
+  rcases hr : nut11_ParseP2PKTags extPI (extPK env) secret.Data.Tags with ⟨ot, oe⟩
+  rw [hr] at hpe hwf
+  cases oe with
+  | some e =>
+    simp only [absRes] at hpe
+    simp only [← hpe, Option.isNone_some, Bool.not_false, if_true]
+    rfl
+  | none =>
+    cases ot with
+    | none => simp at hwf
+    | some t =>
+      simp only [absRes] at hpe
+      simp only [← hpe, Option.isNone_none, Bool.not_true, Bool.false_eq_true, if_false, Option.getD_some]
+      generalize hS : (extU proof.Witness default).Signatures = sigs at *
+      rw [hsig]
+      have hHV : ∀ (n : Int) keys, 0 < n → nut11_HasValidSignatures extP extV (sh proof.Secret) sigs n keys =
+          hasValidSignatures env.valid mp.msg (sigs.map enc) n.toNat keys := by
+        intro n keys hn
+        rw [HasValidSignatures_eq extP extV _ sigs n keys env.valid mp.msg enc hv, hvs_cast _ _ hn]; rfl
+      have hdup := dupSigs_enc enc henc sigs
+      have hlen : decide (Int.ofNat sigs.length < 1) = decide ((sigs.map enc).length < 1) := by
+        simp only [List.length_map, Int.ofNat_eq_natCast]
+        congr 1; apply propext; omega
+      simp only [hHV 1 _ (by decide), hdup, hlen, ofNat_beq_zero]
+      unfold expired tagsOf
+      simp only
+      by_cases hexp : (decide (t.Locktime > 0) && decide (env.now > t.Locktime)) = true
+      · simp only [hexp, if_true]
+        split <;> split <;> (try split) <;> (try split) <;> simp_all [absErr, errOf]
+      · simp only [hexp, if_false, Bool.false_eq_true]
+        cases hk : env.parseKey secret.Data.Data with
+        | none => simp [extPK, hk, absErr, errOf]
+        | some key =>
+          have hx : extPK env secret.Data.Data = (key, none) := by unfold extPK; rw [hk]
+          simp only [hx, Option.isNone_none, Bool.not_true, Bool.false_eq_true, if_false]
+          by_cases hN : t.NSigs > 0
+          · have hN' : t.NSigs.toNat > 0 := by omega
+            simp only [hHV t.NSigs _ hN]
+            simp only [hN, hN', decide_true, if_true, true_and, List.singleton_append]
+            split <;> split <;> (try split) <;> (try split) <;> (try split) <;> simp_all [absErr, errOf]
+          · have hN' : ¬ t.NSigs.toNat > 0 := by omega
+            simp only [hN, hN', decide_false, Bool.false_eq_true, if_false, false_and]
+            split <;> split <;> (try split) <;> (try split) <;> (try split) <;> simp_all [absErr, errOf]
 
 end ParseTags
 
